@@ -888,7 +888,7 @@ Definition terrapin_script : script := [(false, 2, 2); (false, 3, -1)].
 
 Lemma nonstrict_shift :
   let n := scenario (cfg_of Client KDH false true false) (cfg_of Server KDH false true false)
-                    terrapin_script 0 in
+                    terrapin_script 0 0 0%nat in
   o_c n = Continue /\ o_s n = Continue /\
   tx_s n = [20; 0; 31; 1; 21; 2; 7; 3; 6; 4; 52; 5] /\
   rx_c n = [20; 0; 31; 1; 2; 2; 21; 3; 6; 4; 52; 5].
@@ -896,7 +896,7 @@ Proof. vm_compute. repeat split; reflexivity. Qed.
 
 Lemma strict_no_shift_same_script :
   let n := scenario (cfg_of Client KDH true true false) (cfg_of Server KDH true true false)
-                    terrapin_script 0 in
+                    terrapin_script 0 0 0%nat in
   o_c n = AbortMOE /\ rx_c n = [20; 0; 31; 1; 2; 2].
 Proof. vm_compute. repeat split; reflexivity. Qed.
 
@@ -1051,4 +1051,13 @@ Lemma gen_shape :
   g_run_expect = [MSG_KEXINIT] /\ g_activate_expect = [MSG_NEWKEYS] /\
   forallb (fun t => negb (kexmsg t)) [MSG_IGNORE; MSG_UNIMPLEMENTED; MSG_DEBUG; MSG_DISCONNECT; MSG_EXT_INFO; 192] = true /\
   forallb (fun t => (MSG_KEXINIT <=? t) && (t <=? KEX_HI)) g_expect_universe = true.
+Proof. vm_compute. repeat split; reflexivity. Qed.
+
+(* the roll-over boundary: a victim whose inbound counter stands at 2^32 - 1 (2^32 - 1 packets swallowed)
+   refuses the next packet during the initial exchange, so an IGNORE cannot wrap the counter and let the
+   KEXINIT after it arrive with sequence number 0 *)
+Lemma rollover_boundary :
+  let n := scenario (cfg_of Client KDH true true false) (cfg_of Server KDH true true false)
+                    [(true, 0, 2)] 0 (SEQ_MOD - 1) 0%nat in
+  o_s n = AbortSSH /\ rx_s n = [] /\ kdone (n_s n) = false.
 Proof. vm_compute. repeat split; reflexivity. Qed.
